@@ -20,6 +20,8 @@ def cases(tier, seed):
         out.append(dict(kind="v2", shape=list(s)))
     for s in ([(4, 128)] if tier == "quick" else [(4, 128), (8, 256)]):
         out.append(dict(kind="repr", shape=list(s)))
+    for s in ([(8, 64)] if tier == "quick" else [(8, 64), (64, 8), (4, 128)]):
+        out.append(dict(kind="layouts", shape=list(s)))
     return out
 
 
@@ -76,6 +78,33 @@ def run_case(case, res):
         v, secs, mdl = api.solve(pre + [z3.Or(*neq)], 200)
         res.query(name, "BIT", v, secs, sub=sub, nvars=X.size)
         return v, mdl, b
+
+    if case["kind"] == "layouts":
+        # packing a NON-CONTIGUOUS matrix (transposed view, column slice) and a multi-step history on one packed tensor
+        for name, mk in (("transposed-view", lambda: torch.randint(0, 16, (shape[1], shape[0]), dtype=torch.uint8).t()), ("column-slice", lambda: torch.randint(0, 16, (shape[0], 2 * shape[1]), dtype=torch.uint8)[:, ::2])):
+            for packing, reorder in ((P.AWQPacking.V1, False), (P.AWQPacking.V1, True), (P.AWQPacking.V2, False)):
+                x = mk()
+                xc = x.contiguous().clone()
+                with Session(res) as m, NumpyBridge(m):
+                    X = m.symbolic(xc, "x")
+                    xv = xc.t().contiguous().t() if name == "transposed-view" else torch.stack([xc, xc], dim=-1).reshape(xc.shape[0], -1)[:, ::2]
+                    t = P.AWQPackedTensor.pack(xv, packing=packing, reorder=reorder)
+                    U = m.read(t.unpack())
+                    # history: take a view result through dispatch, modify it in place, convert again
+                    v1 = t[:2]
+                    v1 += 1
+                    U2 = m.read(t.unpack())
+                    U3 = m.read(t.clone())
+                v, mdl, b = eq_query("non-contiguous-pack-unpack", U, X, X, sub=f"{name} {packing} reorder={reorder} {tuple(x.shape)}")
+                if v == "sat":
+                    vals = api.model_values(b, mdl, X) if mdl is not None else xc.reshape(-1).tolist()
+                    res.candidate("layouts", "BIT", dict(kind="layouts", layout=name, packing=str(packing), reorder=reorder, x=api.enc_tensor(api.tensor_from_values(vals, tuple(xc.shape), torch.uint8))), exact=True)
+                for nm, UU in (("unpack-after-view-mutation", U2), ("clone-after-view-mutation", U3)):
+                    v, mdl, b = eq_query("results-of-dispatch-do-not-alias-hidden-state", UU, X, X, sub=f"{nm} {name} {packing}")
+                    if v == "sat":
+                        vals = api.model_values(b, mdl, X) if mdl is not None else xc.reshape(-1).tolist()
+                        res.candidate("layouts", "BIT", dict(kind="layouts", layout=name, packing=str(packing), reorder=reorder, x=api.enc_tensor(api.tensor_from_values(vals, tuple(xc.shape), torch.uint8))), exact=True)
+        return
 
     if case["kind"] == "v1":
         x = torch.randint(0, 16, shape, dtype=torch.uint8)
@@ -219,6 +248,19 @@ def replay(rec):
 
     P, Q, removed = setup()
     inp = rec["inputs"]
+    if inp["kind"] == "layouts":
+        xc = api.dec_tensor(inp["x"])
+        xv = xc.t().contiguous().t() if inp["layout"] == "transposed-view" else torch.stack([xc, xc], dim=-1).reshape(xc.shape[0], -1)[:, ::2]
+        packing = P.AWQPacking.V2 if "V2" in inp["packing"] else P.AWQPacking.V1
+        t = P.AWQPackedTensor.pack(xv, packing=packing, reorder=inp["reorder"])
+        probs = []
+        if not torch.equal(t.unpack().to(torch.uint8), xc):
+            probs.append("unpack(pack(non-contiguous x)) != x")
+        v1 = t[:2]
+        v1 += 1
+        if not torch.equal(t.unpack().to(torch.uint8), xc) or not torch.equal(t.clone().to(torch.uint8), xc):
+            probs.append("modifying the result of an earlier operation changed what the packed tensor converts to")
+        return bool(probs), "; ".join(probs) or "layouts ok", None
     if inp["kind"] in ("v1", "v2"):
         x = api.dec_tensor(inp["x"])
         if inp["kind"] == "v1":
